@@ -25,5 +25,5 @@ Theorem k_jitintersect_safe : forall args, Pre_jitintersect args ->
   forall fuel, safe_outcome (run fuel k_jitintersect args).
 Proof.
   intros args (d1 & d2 & d3 & d4 & s1 & e1 & s2 & e2 & -> & H1 & H2) fuel.
-  safe_start k_jitintersect ann_jitintersect. vc.
+  safe_start k_jitintersect ann_jitintersect. vc k_jitintersect ann_jitintersect.
 Qed.
